@@ -14,7 +14,7 @@ def main(srcs):
     try:
         for src in srcs:
             meta=json.load(open(src+"/meta.json"))
-            sid=os.path.basename(os.path.dirname(src))+"-"+os.path.basename(src)
+            sid=os.path.basename(os.path.dirname(src))+"-"+os.path.basename(src)+os.environ.get("SEED_SUFFIX","")
             res={"id":sid,"property":meta["property"]}
             rc,out=sh(f"git apply {src}/patch.diff", WT)
             if rc!=0: res["status"]="patch does not apply to current HEAD"; print(res); continue
